@@ -67,9 +67,11 @@ def check_class(spec, mode, variant):
                 obj.T.list_of_points.append(s.triplet)
                 t_samples.append(s)
 
-    with_stat = variant in ('stat-first', 'stat-last') or spec.stationary_always
+    residue = variant.endswith('+residue')
+    variant0 = variant.replace('+residue', '')
+    with_stat = variant0 in ('stat-first', 'stat-last') or spec.stationary_always
     obj, rec, samples = run_class(spec.module, spec.cls, dict(kwargs), n_samples=3, with_stationary=with_stat,
-                                  stationary_pos='first' if variant == 'stat-first' else 'last', setup=setup)
+                                  stationary_pos='first' if variant0 == 'stat-first' else 'last', setup=setup, residue=residue)
     for t in rec.auto_stationary:
         samples.append(Sample(*t, role='stationary'))
     P = dict(kwargs)
@@ -189,7 +191,7 @@ def check_class(spec, mode, variant):
                           signature={'class': spec.cls, 'condition': cond.name, 'missing_pairs': 'all'}))
         else:
             obs.append(Ob(oid, 'unsat', 0, 'generated'))
-        if cond.order == 'unordered_with_diagonal':
+        if cond.order == 'unordered_with_diagonal' and not residue:
             # the pair helper never emits (i, i): the documented diagonal conditions must come from somewhere else
             diag = [g for g in rec.generated if g[1] is g[2]]
             t0 = time.time()
@@ -228,8 +230,8 @@ def check_class(spec, mode, variant):
 
 def variants_for(spec):
     if spec.needs_stationary:
-        return ['stat-first', 'stat-last', 'stat-auto']
-    return ['plain']
+        return ['stat-first', 'stat-last', 'stat-auto', 'stat-last+residue']
+    return ['plain', 'plain+residue']
 
 
 def check_all_classes(only=None):
